@@ -2,7 +2,9 @@
 //! machine interprets), in the local form and in the thread-safe form.
 use crate::probe::*;
 use crate::val::*;
+use crate::vsched::{dur, ScriptFuture, ScriptFutureOk, ScriptStream, ScriptStreamOk, VSched};
 use rxrust::observable;
+use rxrust::ops::throttle::ThrottleEdge;
 use rxrust::ops::box_it::{CloneableBoxOp, CloneableBoxOpThreads};
 use rxrust::prelude::*;
 use rxrust::observer::{BoxObserver, BoxObserverThreads};
@@ -94,7 +96,7 @@ macro_rules! builder {
    $merge:ident, $zip:ident, $combine_latest:ident, $with_latest_from:ident,
    $take_until:ident, $skip_until:ident, $sample:ident,
    $merge_all:ident, $concat_all:ident, $flatten:ident, $flat_map:ident, $concat_map:ident,
-   $finalize:ident, $share:ident) => {
+   $finalize:ident, $share:ident, $delay:ident, $delay_at:ident, $observe_on:ident) => {
     pub fn $fname(env: &$env, x: usize) -> $bx {
       let ast = env.prog[x - 1].clone();
       let sh = env.sh.clone();
@@ -277,6 +279,78 @@ macro_rules! builder {
         }
         "finalize" => src(ast.s1).$finalize(move || sh.bump(b)).box_it(),
         "share" => src(ast.s1).$share().box_it(),
+        // ------------------------------------------------ scheduler-using operators and sources
+        "delay" => {
+          if b == 1 {
+            // the _at form: an instant `a` units in the future
+            src(ast.s1).$delay_at(Instant::now() + dur(a), VSched).box_it()
+          } else {
+            src(ast.s1).$delay(dur(a), VSched).box_it()
+          }
+        }
+        "observe_on" => src(ast.s1).$observe_on(VSched).box_it(),
+        "delay_subscription" => {
+          if b == 1 {
+            src(ast.s1).delay_subscription_at(Instant::now() + dur(a), VSched).box_it()
+          } else {
+            src(ast.s1).delay_subscription(dur(a), VSched).box_it()
+          }
+        }
+        "subscribe_on" => src(ast.s1).subscribe_on(VSched).box_it(),
+        "debounce" => src(ast.s1).debounce(dur(a), VSched).box_it(),
+        "throttle" => {
+          let edge = match b {
+            1 => ThrottleEdge::leading(),
+            2 => ThrottleEdge::tailing(),
+            _ => ThrottleEdge::all(),
+          };
+          if a > 0 {
+            let inner = src(ast.s1);
+            // throttle_time boxes its selector (not Clone): keep the pipeline cloneable through defer
+            observable::defer(move || inner.clone().throttle_time(dur(a), edge, VSched)).box_it()
+          } else {
+            src(ast.s1).throttle(|v: &Val| dur(w(v).rem_euclid(2) + 1), edge, VSched).box_it()
+          }
+        }
+        "buffer_time" => src(ast.s1).buffer_with_time(dur(a), VSched).map(Val::L).box_it(),
+        "buffer_count_time" => src(ast.s1)
+          .buffer_with_count_and_time(a as usize, dur(b), VSched)
+          .map(Val::L)
+          .box_it(),
+        "interval" => {
+          if b >= 0 {
+            observable::interval_at(Instant::now() + dur(b), dur(a), VSched)
+              .map(|n: usize| Val::I(n as i64))
+              .on_error_map(inf)
+              .box_it()
+          } else {
+            observable::interval(dur(a), VSched).map(|n: usize| Val::I(n as i64)).on_error_map(inf).box_it()
+          }
+        }
+        "timer" => {
+          let v = ast.v.clone();
+          if b == 1 {
+            observable::defer(move || observable::timer_at(v.clone(), Instant::now() + dur(a), VSched))
+              .on_error_map(inf)
+              .box_it()
+          } else {
+            observable::defer(move || observable::timer(v.clone(), dur(a), VSched)).on_error_map(inf).box_it()
+          }
+        }
+        "from_future" => {
+          if b == 1 {
+            observable::from_future_result(ScriptFuture(a as usize), VSched).box_it()
+          } else {
+            observable::from_future(ScriptFutureOk(a as usize), VSched).on_error_map(inf).box_it()
+          }
+        }
+        "from_stream" => {
+          if b == 1 {
+            observable::from_stream_result(ScriptStream(a as usize), VSched).box_it()
+          } else {
+            observable::from_stream(ScriptStreamOk(a as usize), VSched).on_error_map(inf).box_it()
+          }
+        }
         other => panic!("harness: unknown op {other}"),
       }
     }
@@ -307,12 +381,12 @@ impl Iterator for CountIter {
 builder!(
   build_l, EnvL, LBox, local, LSubscriber,
   merge, zip, combine_latest, with_latest_from, take_until, skip_until, sample,
-  merge_all, concat_all, flatten, flat_map, concat_map, finalize, share
+  merge_all, concat_all, flatten, flat_map, concat_map, finalize, share, delay, delay_at, observe_on
 );
 builder!(
   build_t, EnvT, TBox, threads, TSubscriber,
   merge_threads, zip_threads, combine_latest_threads, with_latest_from_threads,
   take_until_threads, skip_until_threads, sample_threads,
   merge_all_threads, concat_all_threads, flatten_threads, flat_map_threads, concat_map_threads,
-  finalize_threads, share_threads
+  finalize_threads, share_threads, delay_threads, delay_at_threads, observe_on_threads
 );
